@@ -332,6 +332,11 @@ def check(run, replay_path=None):
                           prefixes=('D:', 'K:', 'I:', 'T:descriptor'))
     mirrorcommon.run_family(run, 'C11', run.pick(40, 1500), [dict(), dict(async_mgr=True)], seed_offset=7,
                             prefixes=('D:',))
+    # ... and incoming reports under faults: a description report whose later part is rejected (create of a handle the
+    # consumer still has because the delete report was lost) after an earlier part changed an indexed attribute
+    from verif.checks import c06
+    c06.fault_family(run, family={'lookups_agree'}, num=run.pick(12, 600), with_model=False, seed_offset=11,
+                     prefixes=lambda x: x.startswith('R:descr') and ('crt-existing' in x or 'with-update-part' in x))
     for name in os.listdir(SPEC_DIR):
         if name.startswith('_gen_mk_'):
             os.remove(os.path.join(SPEC_DIR, name))
